@@ -826,6 +826,15 @@ class CaseRun:
                 ident = qo["ident"]
                 return lambda: ("idres", identify(ident))
             query = qo["query"]
+            # the other public ways of building an Identification, chosen by a hash-seed independent digest of the spec
+            form = sum(map(ord, f"{self.case['seed']}:{self.case['scenario']}:{r}:{c}:{spec['q']}")) % 3
+            if form == 1:
+                t_, o_ = set(qo["tset"]), set(qo["oset"])
+                return lambda: ("idres", identify(Identification.from_parts(outcomes=o_, treatments=t_, graph=g)))
+            if form == 2:
+                from y0.dsl import P as _P
+
+                return lambda: ("idres", identify(Identification(query=query, graph=g, estimand=_P(g.nodes()))))
             return lambda: ("idres", identify(Identification(query=query, graph=g)))
         t = spec["t"]
         if t[0] == "g":
